@@ -1270,6 +1270,18 @@ pub fn check_c17(ctx: &mut Ctx, cfg: &Cfg, how: How) {
 }
 
 pub fn run_c17(ctx: &mut Ctx, shard: usize, nshards: usize) {
+    // configurations above 65536 words, as long as size calculation accepts them (open finding D13, C16's): they are
+    // "accepted configurations", so the bytes reported as written must not depend on what the buffer held before
+    if ctx.scale >= 0.5 && !UNINIT.load(Ordering::Relaxed) {
+        let mut v = oversize_cfgs();
+        v.extend(oversize_padded_cfgs());
+        for (i, c) in v.iter().enumerate() {
+            if i % nshards == shard {
+                check_c17(ctx, c, hows(i));
+                ctx.class("c17:oversize(>65536 words)");
+            }
+        }
+    }
     workload(ctx, shard, nshards, 0xc17, false, 20_000, 600_000, &mut |ctx, c, h| check_c17(ctx, c, h));
 }
 pub fn floor_c17(ctx: &Ctx) -> Vec<(String, bool)> {
